@@ -109,6 +109,37 @@ theorem eaDump_pointwise (b : Bus) (rd : Nat → Nat → UInt8) (start end_ : Na
     cases b.seg ((start + j) / 16) <;> rfl
   · rw [if_neg c, if_neg c]
 
+/-- **EaRead24_wrap** is three single reads: it succeeds exactly when all three bank-wrapped addresses are routed, and
+then each byte comes from the memory a single read of that address goes to, which is handed that full address -/
+theorem read24_is_three_reads (b : Bus) (bank addr : Nat) :
+    let a := fun k => bank % 256 * 65536 + (addr + k) % 65536
+    (b.read24 bank addr = none ↔ (b.route (a 0) = none ∨ b.route (a 1) = none ∨ b.route (a 2) = none)) ∧
+    ∀ l, b.read24 bank addr = some l →
+      l.map (·.2) = [a 0, a 1, a 2] ∧ l.map (fun p => some p.1) = [b.route (a 0), b.route (a 1), b.route (a 2)] := by
+  simp only [Bus.read24, Nat.add_zero]
+  cases h0 : b.route (bank % 256 * 65536 + addr % 65536) <;>
+  cases h1 : b.route (bank % 256 * 65536 + (addr + 1) % 65536) <;>
+  cases h2 : b.route (bank % 256 * 65536 + (addr + 2) % 65536) <;> simp
+
+/-- … after any Attach history: each of the three bytes is served by the memory most recently attached over it -/
+theorem read24_follows_attach (rs : List Req) (bank addr : Nat) (l : List (Nat × Nat))
+    (h : (attachAll Bus.empty rs).read24 bank addr = some l) :
+    ∀ p ∈ l, lastCover rs p.2 = some p.1 := by
+  have lt0 : bank % 256 * 65536 + addr % 65536 < 16777216 := by omega
+  have lt1 : bank % 256 * 65536 + (addr + 1) % 65536 < 16777216 := by omega
+  have lt2 : bank % 256 * 65536 + (addr + 2) % 65536 < 16777216 := by omega
+  cases h0 : (attachAll Bus.empty rs).route (bank % 256 * 65536 + addr % 65536) <;>
+  cases h1 : (attachAll Bus.empty rs).route (bank % 256 * 65536 + (addr + 1) % 65536) <;>
+  cases h2 : (attachAll Bus.empty rs).route (bank % 256 * 65536 + (addr + 2) % 65536) <;>
+  simp only [Bus.read24, h0, h1, h2, reduceCtorEq, Option.some.injEq] at h
+  subst h
+  rw [routing_follows_attach rs _ lt0] at h0
+  rw [routing_follows_attach rs _ lt1] at h1
+  rw [routing_follows_attach rs _ lt2] at h2
+  intro p hp
+  simp only [List.mem_cons, List.not_mem_nil, or_false] at hp
+  rcases hp with rfl | rfl | rfl <;> assumption
+
 /-! non-vacuity: two memories and a hole, dump straddling both boundaries (the D5 scenario) -/
 example :
     let b := attachAll Bus.empty [⟨1, 0, 15⟩, ⟨2, 32, 47⟩]
